@@ -60,6 +60,12 @@ import (
 // history; requests of the history / the late phase with on >= 100 are rendered by them.  Every
 // such render is repeated by the parent in a process that holds only that engine and renders only
 // that request: the two outputs are reported side by side and must be equal.
+// KEYS THAT ARE NOT STRINGS / STRUCT TYPES WITHOUT A NAME (tags "kmap", "st"): Go maps keyed by bool, sized ints,
+// float64, small structs, arrays, named bool / string types, interface{}; values of reflect.StructOf types and
+// of function-local types that share the name main.View (c07KeyedMap, c07Struct).
+// NOT THE FIRST RENDER (`before`): one more process of its own renders the given requests (other data, other
+// templates; odd engine numbers on a second engine instance) and then the pair, once - reported with the
+// single-render processes in `fresh`.
 // An engine that fails to load its templates is not an error of the harness: its renders are
 // reported as class "load_error".
 
@@ -267,6 +273,10 @@ func buildData07(raw json.RawMessage) (interface{}, error) {
 			m[k] = unhx(s)
 		}
 		return m, nil
+	case "kmap": // a Go map whose keys are not strings: v = {"k": key kind, "e": [[key, value], ...]}
+		return c07KeyedMap(tv.V)
+	case "st": // a struct type without a name of its own: v = {"ty": -1 (reflect.StructOf) | i (local type i), "ptr": bool, "f": [[field name, value], ...]}
+		return c07Struct(tv.V)
 	case "ptr": // pointer to a slice or map value
 		v, err := buildData07(tv.V)
 		if err != nil {
@@ -328,6 +338,217 @@ func buildData07(raw json.RawMessage) (interface{}, error) {
 	return nil, fmt.Errorf("bad data tag %q", tv.T)
 }
 
+// ---- maps with keys that are not strings ---------------------------------------------------------
+// convert names an entry by fmt.Sprint(key).  Key kinds: "bool" map[bool]interface{}, "bs" map[bool]string,
+// "nb" map[c07Flag] (named bool), "i8" map[int8], "u16" map[uint16], "i64" map[int64], "f64" map[float64],
+// "sk" map[c07Key] (small struct), "ak" map[[2]int], "ns" map[c07Name] (named string type),
+// "ik" map[interface{}] with keys of several dynamic types.
+type c07Flag bool
+type c07Name string
+type c07Key struct {
+	A int
+	B string
+}
+
+func c07KeyedMap(raw json.RawMessage) (interface{}, error) {
+	var d struct {
+		K string               `json:"k"`
+		E [][2]json.RawMessage `json:"e"`
+	}
+	if err := json.Unmarshal(raw, &d); err != nil {
+		return nil, err
+	}
+	var mt reflect.Type
+	iface := reflect.TypeOf((*interface{})(nil)).Elem()
+	switch d.K {
+	case "bool":
+		mt = reflect.TypeOf(map[bool]interface{}{})
+	case "bs":
+		mt = reflect.TypeOf(map[bool]string{})
+	case "nb":
+		mt = reflect.TypeOf(map[c07Flag]interface{}{})
+	case "i8":
+		mt = reflect.TypeOf(map[int8]interface{}{})
+	case "u16":
+		mt = reflect.TypeOf(map[uint16]interface{}{})
+	case "i64":
+		mt = reflect.TypeOf(map[int64]interface{}{})
+	case "f64":
+		mt = reflect.TypeOf(map[float64]interface{}{})
+	case "sk":
+		mt = reflect.TypeOf(map[c07Key]interface{}{})
+	case "ak":
+		mt = reflect.TypeOf(map[[2]int]interface{}{})
+	case "ns":
+		mt = reflect.TypeOf(map[c07Name]interface{}{})
+	case "ik":
+		mt = reflect.TypeOf(map[interface{}]interface{}{})
+	default:
+		return nil, fmt.Errorf("bad key kind %q", d.K)
+	}
+	m := reflect.MakeMapWithSize(mt, len(d.E))
+	for _, kv := range d.E {
+		k := reflect.New(mt.Key()).Elem()
+		switch d.K {
+		case "sk":
+			var l []json.RawMessage
+			var key c07Key
+			if err := json.Unmarshal(kv[0], &l); err != nil || len(l) != 2 {
+				return nil, fmt.Errorf("bad struct key %s", kv[0])
+			}
+			if err := json.Unmarshal(l[0], &key.A); err != nil {
+				return nil, err
+			}
+			if err := json.Unmarshal(l[1], &key.B); err != nil {
+				return nil, err
+			}
+			k.Set(reflect.ValueOf(key))
+		case "ik":
+			x, err := buildData07(kv[0])
+			if err != nil || x == nil {
+				return nil, fmt.Errorf("bad interface key %s", kv[0])
+			}
+			k.Set(reflect.ValueOf(x))
+		default:
+			if err := json.Unmarshal(kv[0], k.Addr().Interface()); err != nil {
+				return nil, fmt.Errorf("key %s: %v", kv[0], err)
+			}
+		}
+		v, err := buildData07(kv[1])
+		if err != nil {
+			return nil, err
+		}
+		e := reflect.New(mt.Elem()).Elem()
+		if v != nil {
+			if !reflect.TypeOf(v).AssignableTo(mt.Elem()) {
+				return nil, fmt.Errorf("value %T does not fit %v", v, mt)
+			}
+			e.Set(reflect.ValueOf(v))
+		} else if mt.Elem() != iface {
+			return nil, fmt.Errorf("nil value in %v", mt)
+		}
+		if m.MapIndex(k).IsValid() {
+			return nil, fmt.Errorf("key %s twice", kv[0])
+		}
+		m.SetMapIndex(k, e)
+	}
+	return m.Interface(), nil
+}
+
+// ---- struct types without a name of their own ------------------------------------------------------
+// Types made by reflect.StructOf (no name, no package path: what `struct{Title string}` literals are) and
+// types declared inside functions: DIFFERENT types that all answer "View" / "main" to Name() / PkgPath().
+func c07Local0() reflect.Type {
+	type View struct {
+		Title string
+		Count int
+	}
+	return reflect.TypeOf(View{})
+}
+func c07Local1() reflect.Type {
+	type View struct {
+		Name  string
+		Tags  []string
+		Count int
+	}
+	return reflect.TypeOf(View{})
+}
+func c07Local2() reflect.Type {
+	type View struct {
+		ID    int
+		Label string
+		Items []interface{}
+		Attrs map[string]interface{}
+	}
+	return reflect.TypeOf(View{})
+}
+func c07Local3() reflect.Type {
+	type View struct{ Label string }
+	return reflect.TypeOf(View{})
+}
+func c07Local4() reflect.Type {
+	type View struct {
+		Count int
+		Title string
+	}
+	return reflect.TypeOf(View{})
+}
+
+var c07Locals = []reflect.Type{c07Local0(), c07Local1(), c07Local2(), c07Local3(), c07Local4()}
+
+func c07Struct(raw json.RawMessage) (interface{}, error) {
+	var d struct {
+		Ty  int                  `json:"ty"`
+		Ptr bool                 `json:"ptr"`
+		F   [][2]json.RawMessage `json:"f"`
+	}
+	if err := json.Unmarshal(raw, &d); err != nil {
+		return nil, err
+	}
+	names := make([]string, len(d.F))
+	vals := make([]interface{}, len(d.F))
+	for i, f := range d.F {
+		var n string
+		if err := json.Unmarshal(f[0], &n); err != nil {
+			return nil, err
+		}
+		names[i] = unhx(n)
+		v, err := buildData07(f[1])
+		if err != nil {
+			return nil, err
+		}
+		vals[i] = v
+	}
+	var t reflect.Type
+	if d.Ty >= 0 {
+		if d.Ty >= len(c07Locals) {
+			return nil, fmt.Errorf("no local type %d", d.Ty)
+		}
+		t = c07Locals[d.Ty]
+		if t.NumField() != len(names) {
+			return nil, fmt.Errorf("local type %d has %d fields", d.Ty, t.NumField())
+		}
+		for i, n := range names {
+			if t.Field(i).Name != n {
+				return nil, fmt.Errorf("local type %d: field %d is %s, not %s", d.Ty, i, t.Field(i).Name, n)
+			}
+		}
+	} else {
+		iface := reflect.TypeOf((*interface{})(nil)).Elem()
+		fs := make([]reflect.StructField, len(names))
+		for i, n := range names {
+			ft := iface
+			switch vals[i].(type) {
+			case string, int, bool, []string:
+				ft = reflect.TypeOf(vals[i])
+			}
+			fs[i] = reflect.StructField{Name: n, Type: ft}
+		}
+		var perr interface{}
+		func() {
+			defer func() { perr = recover() }()
+			t = reflect.StructOf(fs)
+		}()
+		if perr != nil {
+			return nil, fmt.Errorf("reflect.StructOf: %v", perr)
+		}
+	}
+	p := reflect.New(t)
+	for i, v := range vals {
+		if v == nil {
+			continue
+		}
+		if !reflect.TypeOf(v).AssignableTo(t.Field(i).Type) {
+			return nil, fmt.Errorf("field %s: %T does not fit %v", names[i], v, t.Field(i).Type)
+		}
+		p.Elem().Field(i).Set(reflect.ValueOf(v))
+	}
+	if d.Ptr {
+		return p.Interface(), nil
+	}
+	return p.Elem().Interface(), nil
+}
+
 // one render of the history / of the late phase
 type c07Req struct {
 	Render string          `json:"render"`
@@ -357,6 +578,10 @@ type c07Case struct {
 	Single   bool                       `json:"single"`
 	Layout   int                        `json:"layout"` // single mode: 0 main layout, 1 rendered template alone, 2 the other listing order
 	Fresh    int                        `json:"fresh"`  // parent only: number of additional processes that render the pair exactly once
+	// Before: one more process of its own in which the pair is NOT the first thing rendered: these requests
+	// (other data, other templates) are rendered first - On odd: by another engine instance of that process -,
+	// then the pair, once.  What the first render of a process' life leaves behind is then another render's.
+	Before []c07Req `json:"before"`
 }
 
 // an engine instance of the process that is not one of the pair's: own function table, own template directory
@@ -724,9 +949,18 @@ func runC07(c c07Case) (obs c07Obs, err error) {
 	if err != nil {
 		return obs, err
 	}
-	if !c07Same(data, pristine) {
+	// two constructions from one description differ: the only engine code involved is pugjs.Convert (data tags
+	// obj / objs / omap) - an observation (reported as "not untouched"), not an error of the harness
+	differs := !c07Same(data, pristine)
+	if differs && !bytes.Contains(c.Data, []byte(`"t":"obj`)) && !bytes.Contains(c.Data, []byte(`"t": "obj`)) && !bytes.Contains(c.Data, []byte(`"omap"`)) {
 		return obs, fmt.Errorf("data description does not build reproducibly")
 	}
+	defer func() {
+		if differs && err == nil {
+			obs.Untouched = false
+			obs.Msg = "two constructions of the data from the same description differ (pugjs.Convert) " + obs.Msg
+		}
+	}()
 	ctx := context.Background()
 	funcs, err := c07Funcs(c.Funcs)
 	if err != nil {
@@ -795,6 +1029,26 @@ func runC07(c c07Case) (obs c07Obs, err error) {
 	obs.Load, obs.Msg = safeLoad(e1, "")
 	if obs.Load != clsOK {
 		e1 = nil
+	}
+	if c.Single && len(c.Before) > 0 {
+		var e0 *pugjs.Engine
+		for _, rq := range c.Before {
+			d, err := buildData07(rq.Data)
+			if err != nil {
+				return obs, err
+			}
+			eng := e1
+			if rq.On%2 == 1 {
+				if e0 == nil {
+					e0 = newEngine(first, false, 0, funcs)
+					if cls, _ := safeLoad(e0, ""); cls != clsOK {
+						e0 = nil
+					}
+				}
+				eng = e0
+			}
+			render07(eng, ctx, unhx(rq.Render), d)
+		}
 	}
 	obs.R = append(obs.R, render07(e1, ctx, name, data)) // r0: first render of the pair's engines (of the process, unless an alien engine came first)
 	obs.Untouched = c07Same(data, pristine)
@@ -1074,9 +1328,15 @@ func c07Isolated(self, tmp string, c c07Case) (c07Obs, error) {
 	obs.Fresh = []renderResult{}
 	single := c
 	single.Single = true
-	single.Prefix, single.Late, single.HoldR0, single.Aliens = nil, nil, false, nil
+	single.Prefix, single.Late, single.HoldR0, single.Aliens, single.Before = nil, nil, false, nil, nil
+	if len(c.Before) > 0 {
+		n++
+	}
 	for i := 0; i < n; i++ {
 		single.Layout = i % 3
+		if len(c.Before) > 0 && i == n-1 {
+			single.Layout, single.Before = 0, c.Before
+		}
 		o, err := c07Child(self, tmp, single)
 		if err != nil {
 			return obs, err
